@@ -3,7 +3,7 @@
    announcement over the old channel record gives the new one) is checked on every run by the
    correspondence oracle, not proved here: see DESIGN.md section 5 (C08). *)
 From IRC Require Import Str Wild Glob Mask Parse Reply State Handlers Step.
-From IRCP Require Import InvDefs ModeP AnnounceP SettingsFrame SettingsGlobal RankFrame RankGlobal.
+From IRCP Require Import InvDefs ModeP AnnounceP SettingsFrame SettingsGlobal RankFrame RankGlobal PrefixP.
 From stdpp Require Import gmap.
 
 Section C08.
@@ -186,6 +186,12 @@ Theorem C08_ranks_change_only_by_mode : forall cfg verify w i e w' o cl,
               exists msg modes, tokenize l = inl msg /\ command_of_message msg = inl (MODE ch modes).
 Proof. exact ranks_change_only_by_mode. Qed.
 
+(* SHOWN BY LATER NAMES / WHO QUERIES: the prefix a member is listed with is, for a client that negotiated multi-prefix, one
+   character for EVERY rank it holds, in the order ~ & @ % + ; for any other client the first of these *)
+Theorem C08_prefix_shows_every_rank : forall r,
+  rank_prefix true r = all_prefixes r /\ rank_prefix false r = firstn 1 (all_prefixes r).
+Proof. exact prefix_shows_every_rank. Qed.
+
 Print Assumptions C08_outsider.
 Print Assumptions C08_flags_as_announced.
 Print Assumptions C08_announcement_text.
@@ -203,3 +209,4 @@ Print Assumptions C08_limit_announced.
 Print Assumptions C08_settings_change_only_by_mode.
 Print Assumptions C08_other_commands_keep_settings.
 Print Assumptions C08_ranks_change_only_by_mode.
+Print Assumptions C08_prefix_shows_every_rank.
